@@ -124,8 +124,8 @@ func runC11(c *Check) {
 					return isLk && lk.CommaOk && r.isPers(lk.X)
 				})
 				re := ReachEntry(R, NewCut().AddInstrs(hdr).AddEdges(absent...))
-				for _, ad := range Callers([]*ssa.Function{R}, r.AddSub) {
-					c.Report(!re[ad], P+".O3", "REPLAY-NOT-SKIPPED", R, g.Pos(), "go deliver", "the replay loop is entered whenever the topic has a persisted log: the registration is reached only through the loop or through the edge on which the lookup found nothing")
+				for _, ad := range Returns(R) {
+					c.Report(!re[ad], P+".O3", "REPLAY-NOT-SKIPPED", R, g.Pos(), "go deliver", "the replay loop is entered whenever the topic has a persisted log: the goroutine's end is reached only through the loop or through the edge on which the lookup found nothing")
 				}
 			}
 			// for this subscription
